@@ -15,12 +15,15 @@ import (
 	"golang.org/x/tools/go/ssa/ssautil"
 )
 
-const repoDir = "/repo"
+var repoDir = "/repo" // VERIF_REPO overrides (background sweeps run against a snapshot of /repo)
 const modPath = "github.com/pinealctx/neptune"
 
 var verifDir = "/verif"
 
 func init() {
+	if r := os.Getenv("VERIF_REPO"); r != "" {
+		repoDir = r
+	}
 	if d := os.Getenv("VERIF_DIR"); d != "" {
 		verifDir = d
 	} else if exe, err := os.Executable(); err == nil {
